@@ -321,6 +321,56 @@ def run_init_drop(job):
     return (None, None)
 
 
+def outage_commands():
+    import pyairtouch as A
+    return [("check_for_updates()", lambda at, acs, zs: at.check_for_updates),
+            ("ac0.set_mode(HEAT)", lambda at, acs, zs: (lambda: acs[0].set_mode(A.AcMode.HEAT))),
+            ("ac0.set_power(TOGGLE)", lambda at, acs, zs: (lambda: acs[0].set_power(A.AcPowerControl.TOGGLE))),
+            ("zone0.set_power(OFF)", lambda at, acs, zs: (lambda: zs[0].set_power(A.ZonePowerState.OFF))),
+            ("zone0.set_damper_percentage(30)", lambda at, acs, zs: (lambda: zs[0].set_damper_percentage(30))),
+            ("ac0.clear_quick_timer(OFF)", lambda at, acs, zs: (lambda: acs[0].clear_quick_timer(A.AcTimerType.OFF_TIMER)))]
+
+
+def run_outage_command(job):
+    """The same call made while the link is down, the link coming back d seconds later: it reaches both consoles or
+    neither, with the same meaning, and the models agree afterwards."""
+    ci, d = job
+    label, mk = outage_commands()[ci]
+    p = Pair(0)
+    seen = {}
+    for gen, w in p.w.items():
+        acs = {a.ac_id: a for a in w.at.air_conditioners}
+        zones = {z.zone_id: z for a in w.at.air_conditioners for z in a.zones}
+        w.net.auto = None
+        w.net.live()[-1].peer_eof()
+        w.loop.settle()
+        n0 = len(w.console.requests)
+        t0 = w.loop.time()
+        rec = w.call(mk(w.at, acs, zones), label)
+        w.loop.settle()
+        w.loop.run_until(t0 + d)
+        w.net.auto = "accept"
+        w.net.resolve_all(True)
+        w.loop.run_until(t0 + d + 5.0)
+        # what reached the console apart from the client's own refresh on re-connection (AC status + zone status)
+        # and the error-information follow-ups
+        got = []
+        for r in w.console.requests[n0:]:
+            if r[2] in ("req-ac-status", "req-zone-status", "req-error"):
+                continue
+            kind, reading = cc.read_command(gen, r[3])
+            got.append(normalise(gen, kind, reading))
+        seen[gen] = (rec["status"], got)
+    tag = f"{label} called while the link is down, link back after {d} s"
+    if seen[4] != seen[5]:
+        return ("outage-command", f"{tag}: AirTouch 4 client: call {seen[4][0]}, console received {seen[4][1]}; "
+                                  f"AirTouch 5 client: call {seen[5][0]}, console received {seen[5][1]}")
+    r = p.compare_views(tag)
+    if r:
+        return ("outage-command-view", r)
+    return (None, None)
+
+
 def run_products(job):
     """Single-step cross products restricted to the common domain."""
     import datetime
@@ -385,6 +435,8 @@ def run_products(job):
 
 
 def replay_input(rp):
+    if rp.get("outage_command") is not None:
+        return run_outage_command(tuple(rp["outage_command"]))[1]
     if rp.get("init_drop") is not None:
         return run_init_drop(tuple(rp["init_drop"]))[1]
     if rp.get("seq") is not None:
@@ -420,6 +472,12 @@ def run(tier, seed, part=None):
         if sig:
             chk.violation(sig, msg, {"kind": "input", "module": "pvmc.props.c19", "init_drop": list(job), "message": msg})
     chk.parts.append({"scenario": "init() with the link dropped at each handshake step", "runs": len(djobs)})
+    ojobs = [(ci, d) for ci in range(len(outage_commands())) for d in (0.5, 1.5, 29.0, 31.0)]
+    for job, (sig, msg) in zip(ojobs, explorer.pool().map(run_outage_command, ojobs, chunksize=1)):
+        total += 1
+        if sig:
+            chk.violation(sig, msg, {"kind": "input", "module": "pvmc.props.c19", "outage_command": list(job), "message": msg})
+    chk.parts.append({"scenario": "command issued during an outage of 0.5 / 1.5 / 29 / 31 s", "runs": len(ojobs)})
     chk.parts.append({"scenario": "joint histories", "depth": depth, "events": [e[0] for e in ev], "sequences": len(jobs)})
     chk.samples.append({"history": [ev[i][0] for i in seqs[len(seqs) // 2]]})
     chk.counters["states"] = len(jobs)
